@@ -1,0 +1,30 @@
+//go:build verif
+
+package routing
+
+import (
+	"lunar/engine/metrics"
+	"lunar/engine/streams"
+)
+
+// VerifC05NewStreamsManager is an exporting shim for the external verification
+// harness (property C05): a HandlingDataManager in streams mode that serves
+// transactions with the given, already initialized stream - what Setup() holds
+// after initializeStreams, without the proxy registration, the syslog writer,
+// the doctor and telemetry. No behaviour of its own: it only fills the fields
+// processRequest / processResponse read (isStreamsEnabled, stream,
+// metricManager). Transactions are then driven through the real SPOE entry
+// (VerifC11ProcessRequest / VerifC11ProcessResponse = processRequest /
+// processResponse: readRequestArgs / readResponseArgs -> utils.ParseHeaders ->
+// runner.RunFlow -> getSPOEReqActions / getSPOERespActions).
+// Add-only, compiled only with -tags verif.
+func VerifC05NewStreamsManager(
+	stream *streams.Stream,
+	metricManager *metrics.MetricManager,
+) *HandlingDataManager {
+	rd := &HandlingDataManager{} //nolint:exhaustruct
+	rd.isStreamsEnabled = true
+	rd.setStream(stream)
+	rd.metricManager = metricManager
+	return rd
+}
